@@ -43,6 +43,13 @@ def one(rec, hub, seed, tier, i):
             s = dsm.make_stock(fd, cfg, "StockDrivenDSM", solver="manual" if which == 2 else "lapack", lm=lm,
                                stock=dsm.driver_values(rng, cfg["shape"], str(rng.choice(["stock", "growing", "scaled:growing"]))))
             s.compute()
+        if hasattr(s, "lifetime_model") and i % 5 == 1 and len(cfg["items"]) <= 40:
+            # "its survival share" is the share the declared distribution gives (C08 decides the tables at large; here the table the
+            # cohorts were actually built from is compared with the distribution for the configurations of this check)
+            with hub.pause():
+                st_ = S.lm_state(s.lifetime_model)
+                st_["prms"] = {k_: np.array(v_, dtype=float) for k_, v_ in cfg["truth"].items()}
+                S.check_tables(rec, st_, np.asarray(s.lifetime_model.sf), np.asarray(s.lifetime_model.pdf), "C09", where="table behind the cohort stocks")
         if hasattr(s, "lifetime_model") and rng.random() < 0.3:
             # the same stock and the same lifetime model once more with other driver values (cached tables are shared state)
             drv = s.stock if type(s).__name__ == "StockDrivenDSM" else s.inflow
